@@ -29,8 +29,8 @@ theorem readRefs_refBytes (refs : List (BitVec 32)) (rest : Bytes) :
   | nil => simp [readRefs]
   | cons r rs ih =>
     rw [refBytes_cons, List.length_cons, readRefs]
-    have hl : ¬ (bePut 4 r.toNat ++ refBytes rs ++ rest).length < 4 := by
-      simp [List.length_append, bePut_length]
+    have hl : ¬ ((bePut 4 r.toNat ++ refBytes rs ++ rest).take 4).length < 4 := by
+      simp [List.length_take, List.length_append, bePut_length]
     simp only [hl, if_false]
     rw [List.append_assoc, List.drop_left' (bePut_length 4 _), ih,
       List.take_left' (bePut_length 4 _), beGet_bePut_of_lt (by have := r.isLt; omega)]
@@ -42,7 +42,7 @@ theorem readRefs_isSome (n : Nat) (bs : Bytes) (h : n * 4 ≤ bs.length) : (read
   | zero => simp [readRefs]
   | succ n ih =>
     rw [readRefs]
-    have hl : ¬ bs.length < 4 := by omega
+    have hl : ¬ (bs.take 4).length < 4 := by rw [List.length_take]; omega
     simp only [hl, if_false]
     have := ih (bs.drop 4) (by rw [List.length_drop]; omega)
     cases hr : readRefs n (bs.drop 4) with
@@ -65,6 +65,7 @@ theorem unmarshal_v2 {P : Params} {F : Fmt} (hv : ValidV2 F) (e : Env) (n t f r 
   obtain ⟨h2, _, _, _, hg, hcov, _⟩ := hv
   obtain ⟨_, g2, g3, g4, g5, g6, g7, g8⟩ := field_v2 n t f r s d c k
   unfold unmarshal
+  simp only [crc32_table_eq]
   simp only [hg, h2, g2, g3, g4, g5, g6, g7, g8, hcov, take_pre (preV2_length n t f r s d c)]
   simp only [frameCrc, List.append_nil, headPktV2]
   have e1 : BitVec.ofNat 32 (c % 256 ^ 4) = BitVec.ofNat 32 c := ofNat_mod 32 c
@@ -81,6 +82,7 @@ theorem unmarshal_v1 {P : Params} {F : Fmt} (hv : ValidV1 F) (e : Env) (n t f s 
   obtain ⟨h2, _, _, _, hg, hcov, _⟩ := hv
   obtain ⟨_, _, g3, g4, g5, g6⟩ := field_v1 n t f s c k
   unfold unmarshal
+  simp only [crc32_table_eq]
   simp only [hg, h2, g3, g4, g5, g6, hcov, take_pre (preV1_length n t f s c)]
   simp only [frameCrc, List.append_nil, headPktV1]
   have e1 : BitVec.ofNat 32 (c % 256 ^ 4) = BitVec.ofNat 32 c := ofNat_mod 32 c
